@@ -14,16 +14,31 @@ def cmpBytes : Bytes → Bytes → Ordering
   | a :: as, b :: bs =>
     if a < b then .lt else if b < a then .gt else cmpBytes as bs
 
+/-- constructor rank: only used between values of different shapes, which never meet as keys of
+one collection; it makes `Val.cmp` a total order on *all* representations -/
+def Val.rank : Val → Nat
+  | .int _ => 0 | .bool _ => 1 | .blob _ => 2 | .list _ => 3 | .deque _ _ => 4 | .variant _ _ => 5
+
+def cmpNat (a b : Nat) : Ordering := if a < b then .lt else if b < a then .gt else .eq
+
 mutual
 /-- `Ord::cmp` on representations (derived `Ord` is lexicographic, variant index first) -/
 def Val.cmp : Val → Val → Ordering
   | .int a, .int b => if a < b then .lt else if b < a then .gt else .eq
-  | .bool a, .bool b => if a == b then .eq else if a == false then .lt else .gt
+  | .bool a, .bool b => cmpNat a.toNat b.toNat
   | .blob a, .blob b => cmpBytes a b
   | .list a, .list b => Val.cmpList a b
+  | .deque a b, .deque c d =>
+    match Val.cmpList a c with
+    | .lt => .lt
+    | .gt => .gt
+    | .eq => Val.cmpList b d
   | .variant i a, .variant j b =>
-    if i < j then .lt else if j < i then .gt else Val.cmpList a b
-  | _, _ => .eq
+    match cmpNat i j with
+    | .lt => .lt
+    | .gt => .gt
+    | .eq => Val.cmpList a b
+  | a, b => cmpNat a.rank b.rank
 def Val.cmpList : List Val → List Val → Ordering
   | [], [] => .eq
   | [], _ :: _ => .lt
